@@ -223,6 +223,7 @@ func (e *Engine) runOnce(c *Contract, fn *ssa.Function, res *FuncResult) {
 		pv := &PtrVal{Kind: KCell, Cell: cell, Typ: pt.Elem()}
 		fr.vals[fv] = pv
 		fr.free[e.posKey(fv.Name(), fv.Pos())] = pv
+		fr.params[e.posKey(fv.Name(), fv.Pos())] = e.asVal(val, pt.Elem())
 		res.Params = append(res.Params, val)
 		res.ParamNames = append(res.ParamNames, "captured "+fv.Name())
 	}
